@@ -258,6 +258,18 @@ def r2_sync_table(ctx):
             cell[0], cell[1], cell[2], 'as documented' if ok else 'NOT in the documented sync table'))
     ctx.floor('C11.R2', 'distinct (method, state, id) cells observed', len(observed), 10)
     fam = family(ctx, M + 'Session::sync')
+    # sync with the private helpers it was split into put back (P13): a record handed to a helper as a parameter, a result returned by a
+    # helper and `?`-ed by the caller, are then visible in one body
+    from ..inline import inlined
+    sb_ = _sync_body(ctx)
+    whole = None
+    if sb_ is not None and len(fam) > 1:
+        try:
+            whole = inlined(ctx.fb, sb_, crate=CR, only=lambda cb: cb.nroot in fam, keep={'pavex_session::store_::SessionRecordRef::empty'})
+        except Exception:
+            whole = None
+    if whole is not None and sum(1 for _, t in whole.calls() if (callee(t) or '').startswith(STORE)) >= sum(1 for it in fam for b in fam[it] for _, t in b.calls() if (callee(t) or '').startswith(STORE)):
+        fam = {M + 'Session::sync': [whole]}
     sites = []
     for it in sorted(fam):
         for b in fam[it]:
@@ -457,6 +469,7 @@ def r4_only_sync_talks_to_store(ctx):
     fam_load = set(family(ctx, M + 'force_load'))
     allowed = {'create': fam_sync, 'update': fam_sync, 'update_ttl': fam_sync, 'delete': fam_sync, 'change_id': fam_sync, 'load': fam_load}
     n = 0
+    meths = set()
     seen = set()
     for b in ctx.fb.bodies(CR):
         if b.is_promoted:
@@ -467,13 +480,15 @@ def r4_only_sync_talks_to_store(ctx):
                 meth = c[len(STORE):]
                 if meth in allowed:
                     n += 1
+                    meths.add(meth)
                     ok = b.nroot in allowed[meth]
                     key = 'caller|%s|%s' % (meth, b.nroot.replace(M, ''))
                     if key not in seen or not ok:
                         seen.add(key)
                         ctx.ob('C11.R4', key, ok, b.loc(bb, t), 'SessionStore::%s called from %s' % (meth, b.nroot), nontrivial=True)
     ctx.count('store_call_sites', n)
-    ctx.floor('C11.R4', 'SessionStore call sites in pavex_session (positive control)', n, 12)
+    # positive control: the query sees a call of every store method (how many call sites each has is the maintainers' business)
+    ctx.floor('C11.R4', 'distinct SessionStore methods called inside pavex_session (positive control)', len(meths), 6)
 
 
 def r6_wire_symmetry(ctx):
